@@ -30,6 +30,7 @@ type Spec struct {
 	Seg      int    `json:"seg"`       // TCP segment size of the client's writes (0 = one write)
 	Order    int    `json:"order"`     // 0 client half-closes first; 1 target speaks and half-closes first; 2 both at once
 	TCPBuf   int    `json:"tcpbuf"`
+	IdleS    int    `json:"idle_s"` // seconds both sides stay silent after the handshake before data flows
 }
 
 func (s Spec) String() string { b, _ := json.Marshal(s); return string(b) }
@@ -56,7 +57,7 @@ func build(s Spec) *engine.Scenario {
 	other := world.MakeKey("other", world.Ciphers[(s.Cipher+1)%4], "0ther")
 	up := world.Pattern(0x11, s.Up)
 	down := world.Pattern(0x5a, s.Down)
-	sc := &engine.Scenario{Name: "relay" + s.String(), Opt: vrt.Options{Horizon: 10 * time.Minute}}
+	sc := &engine.Scenario{Name: "relay" + s.String(), Opt: vrt.Options{Horizon: 6 * time.Hour}}
 	sc.Body = func() {
 		o = obsT{}
 		vw := vnet.Reset()
@@ -77,6 +78,9 @@ func build(s Spec) *engine.Scenario {
 			case 0:
 				if t.ReadAll(i, c) == nil {
 					o.targetEOF = true
+				}
+				if s.IdleS > 0 {
+					vrt.Sleep(time.Duration(s.IdleS) * time.Second)
 				}
 				c.Write(down)
 				c.Close()
@@ -129,7 +133,15 @@ func build(s Spec) *engine.Scenario {
 		switch s.Order {
 		case 0, 2:
 			rd := vrt.Spawn("client-reader", func() { cl.ReadAll() })
-			cl.Send(wire, s.Seg)
+			if s.IdleS > 0 && len(chunks) > 1 {
+				// handshake and address now, the payload only after a long silence
+				hs := len(world.EncodeStream(key, 1, chunks[0]))
+				cl.Send(wire[:hs], s.Seg)
+				vrt.Sleep(time.Duration(s.IdleS) * time.Second)
+				cl.Send(wire[hs:], s.Seg)
+			} else {
+				cl.Send(wire, s.Seg)
+			}
 			cl.C.CloseWrite()
 			vrt.Join(rd)
 		case 1:
@@ -270,6 +282,12 @@ func gridE(tier string) []Spec {
 			}
 		}
 	}
+	// connections that outlive the handshake timeout (59 s) by far: silence, then data both ways
+	for cipher := 0; cipher < 4; cipher++ {
+		for _, idle := range []int{58, 60, 3600} {
+			out = append(out, Spec{Cipher: cipher, AddrType: cipher % 3, Coalesce: 0, Up: 5000, Down: 7000, Chunk: 16383, IdleS: idle})
+		}
+	}
 	return out
 }
 
@@ -277,7 +295,7 @@ func gridS() []Spec {
 	var out []Spec
 	for order := 0; order < 3; order++ {
 		for _, co := range []int{0, 1} {
-			out = append(out, Spec{Cipher: order % 4, AddrType: 0, Coalesce: co, Up: 300, Down: 200, Chunk: 200, Seg: 0, Order: order, TCPBuf: 256})
+			out = append(out, Spec{Cipher: order % 4, AddrType: (order + co) % 3, Coalesce: co, Up: 300, Down: 200, Chunk: 200, Seg: 0, Order: order, TCPBuf: 256})
 		}
 	}
 	return out
@@ -297,9 +315,9 @@ func init() {
 			ctx.RunCase("relay-grid", "E", build(s), s, nil)
 		}
 		// engine S
-		bound := 2
+		bound := 3
 		if ctx.Tier == "thorough" {
-			bound = 3
+			bound = 4
 		}
 		for _, s := range gridS() {
 			engine.ExploreS(ctx, build(s), engine.SConfig{Bound: bound, Shard: ctx.Shard, NShards: ctx.NShards, Deadline: ctx.Deadline})
